@@ -394,7 +394,15 @@ claim('C06',
       'codec, the edge\'s recipient splitter is disjoint from the base64 '
       'alphabet, reply header and parameter names agree; (X5) recipients '
       'are offered by a plain pass over envelope.recipients and appended / '
-      'rebuilt in arrival order. That every valid address and every body '
+      'rebuilt in arrival order; (X6) what the server hands to the MAIL / '
+      'RCPT callbacks is the text between the delimiters, sliced and '
+      'decoded only (provenance walk; table ADDRESS_CUTTERS of operations '
+      'that can cut inside an address); (X7) WsgiEdge._get_sender refuses '
+      'no request on the falsiness of the sender header value (the empty '
+      'value is the null sender); (X8) the SMTP relay hands send_data '
+      'exactly the parts flatten() returned, whole and in order (a part '
+      'boundary is a line start for the dot-stuffer). '
+      'That every valid address and every body '
       'comes out as it went in (the value-level round trip through '
       '_encode / _xtext / find_outside_quotes / _gather_params, base64 and '
       'the email package) is NOT decided.',
@@ -402,7 +410,8 @@ claim('C06',
       'base64 alphabet, wsgiref Headers.add_header output format.',
       'interpretation of regular-expression syntax trees on source '
       'literals, character-class inclusion, constant-table agreement '
-      'between sibling implementations, guard dominance on the CFG',
+      'between sibling implementations, guard dominance on the CFG, '
+      'value-provenance walk over inlined frames',
       'DESIGN.md §4 C06')
 
 
